@@ -47,6 +47,9 @@ type Walker struct {
 	Transfer func(st int, n ast.Node, f Formula) int
 	OnExit   func(st int, ret *ast.ReturnStmt, f Formula)
 	AtNode   func(n ast.Node, states uint64, f Formula)
+	// Refine lets a rule collapse path states using the facts known at a
+	// statement boundary (e.g. "pending error" -> "tested" once err == nil is known).
+	Refine func(st int, f Formula) int
 	// OnBranch observes break/continue statements; OnLoopBodyEnd the normal end of a loop body.
 	OnBranch      func(b *ast.BranchStmt, states uint64, f Formula)
 	OnLoopBodyEnd func(loop ast.Stmt, states uint64, f Formula)
@@ -600,10 +603,27 @@ func (w *Walker) stmtTerminates(s ast.Stmt) bool {
 	return false
 }
 
+func (w *Walker) refine(f Formula) {
+	if w.Refine == nil || w.cur == 0 {
+		return
+	}
+	var out uint64
+	for st := 0; st < 64; st++ {
+		if w.cur&(1<<uint(st)) != 0 {
+			ns := w.Refine(st, f)
+			if ns >= 0 && ns < 64 {
+				out |= 1 << uint(ns)
+			}
+		}
+	}
+	w.cur = out
+}
+
 func (w *Walker) stmt(s ast.Stmt, f Formula) Formula {
 	if s == nil {
 		return f
 	}
+	w.refine(f)
 	if w.OnStmt != nil && w.quiet == 0 {
 		w.OnStmt(s, f)
 	}
@@ -739,6 +759,7 @@ func (w *Walker) stmt(s ast.Stmt, f Formula) Formula {
 				bf = MkAnd(f, w.Cond(x.Cond))
 			}
 			ef := w.block(x.Body.List, bf)
+			w.refine(ef)
 			if w.OnLoopBodyEnd != nil && w.quiet == 0 && w.cur != 0 {
 				w.OnLoopBodyEnd(x, w.cur, ef)
 			}
@@ -763,6 +784,7 @@ func (w *Walker) stmt(s ast.Stmt, f Formula) Formula {
 		w.Loops = append(w.Loops, x)
 		w.loop(false, func() {
 			ef := w.block(x.Body.List, f)
+			w.refine(ef)
 			if w.OnLoopBodyEnd != nil && w.quiet == 0 && w.cur != 0 {
 				w.OnLoopBodyEnd(x, w.cur, ef)
 			}
